@@ -1178,8 +1178,8 @@ type corr struct {
 
 func (c corr) String() string {
 	switch c.kind {
-	case "field":
-		return fmt.Sprintf("%d:field.%d.%d", c.pos, c.a, c.b)
+	case "field", "altcontent":
+		return fmt.Sprintf("%d:%s.%d.%d", c.pos, c.kind, c.a, c.b)
 	case "wrongshare", "idx":
 		return fmt.Sprintf("%d:%s.%d", c.pos, c.kind, c.a)
 	}
@@ -1518,6 +1518,34 @@ func (e *episode) execAgg(run *hx.Run, o aggOp) {
 					}
 				case "idx":
 					idx = int(int32(uint32(c.a)))
+				case "altcontent":
+					// alter the SIGNED content after signing: the signature stays a valid share signature
+					// over the common content, the object's own message root becomes another one
+					before := s.view()
+					if ls := leavesOf(s.obj); len(ls) > 0 && before.root != nil {
+						for k := 0; k < len(ls); k++ {
+							l := ls[(int(c.a)+k)%len(ls)]
+							if l.v.Kind() == reflect.Struct {
+								continue
+							}
+							mutate(l, c.b)
+							after := s.view()
+							good := after.root != nil && *after.root != *before.root && after.sig == before.sig &&
+								after.epoch != nil && before.epoch != nil && *after.epoch == *before.epoch
+							if good {
+								if par, err := s.toCore(idx); err != nil {
+									good = false
+								} else if _, err := par.Clone(); err != nil {
+									good = false
+								}
+							}
+							if good {
+								run.Case(fmt.Sprintf("%s/v%d/altcontent%s", kindNames[vs.kind], ba.ver, l.path))
+								break
+							}
+							mutate(l, c.b)
+						}
+					}
 				case "field":
 					if ls := leavesOf(s.obj); len(ls) > 0 {
 						l := ls[int(c.a)%len(ls)]
@@ -1530,7 +1558,7 @@ func (e *episode) execAgg(run *hx.Run, o aggOp) {
 						run.Case(fmt.Sprintf("%s/v%d/field%s", kindNames[vs.kind], ba.ver, l.path))
 					}
 				}
-				if c.kind != "field" {
+				if c.kind != "field" && c.kind != "altcontent" {
 					run.Case(fmt.Sprintf("%s/v%d%v/%s/n%d", kindNames[vs.kind], ba.ver, ba.blinded, c.kind, len(vs.shares)))
 				}
 			}
@@ -1854,7 +1882,7 @@ func (g *gen) randSubset(k int) []int {
 	return out
 }
 
-var corrKinds = []string{"wrongshare", "idx", "othermsg", "otherobj", "zero", "inf", "rand", "field", "validx"}
+var corrKinds = []string{"wrongshare", "idx", "othermsg", "otherobj", "zero", "inf", "rand", "field", "altcontent", "validx"}
 
 func (g *gen) mkCorr(kind string, pos int, shares []int) corr {
 	c := corr{pos: pos, kind: kind}
@@ -1867,7 +1895,7 @@ func (g *gen) mkCorr(kind string, pos int, shares []int) corr {
 		c.a = uint64(j)
 	case "idx":
 		c.a = []uint64{0, uint64(g.cfg.n + 1), uint64(1 + g.r.Intn(g.cfg.n)), 0xFFFFFFFF, 77}[g.r.Intn(5)]
-	case "field":
+	case "field", "altcontent":
 		c.a, c.b = uint64(g.r.Intn(100000)), uint64(g.r.Intn(64))
 	}
 	return c
@@ -1912,6 +1940,42 @@ func (g *gen) systematic(kind int) {
 			v := base(g.randSubset(g.cfg.t))
 			v.corrs = []corr{{pos: g.r.Intn(g.cfg.t), kind: "trunc"}}
 			one(v)
+		}
+		// carrier scenarios: the object the aggregate is injected into (and that is published) must be the
+		// object that is verified. Attestations: the partial carrying a validator index (the local VC's
+		// copy) at the head, in the middle, at the end, its signed content consistent with the others or
+		// altered after signing (its share signature stays valid over the common content); with exactly
+		// threshold and with more partials, in random arrival order. Other kinds: the head is the carrier.
+		for _, cnt := range []int{g.cfg.t, g.cfg.n} {
+			if kind == kAtt {
+				for _, pos := range []int{0, cnt / 2, cnt - 1} {
+					for _, altered := range []bool{false, true} {
+						v := base(g.randSubset(cnt))
+						v.corrs = []corr{{pos: pos, kind: "validx"}}
+						if altered {
+							v.corrs = append(v.corrs, g.mkCorr("altcontent", pos, v.shares))
+						}
+						one(v)
+					}
+				}
+				// two partials carry a validator index, the first of them altered / the second of them altered
+				for _, firstAltered := range []bool{true, false} {
+					v := base(g.randSubset(cnt))
+					v.corrs = []corr{{pos: 1, kind: "validx"}, {pos: cnt - 1, kind: "validx"}}
+					p := cnt - 1
+					if firstAltered {
+						p = 1
+					}
+					v.corrs = append(v.corrs, g.mkCorr("altcontent", p, v.shares))
+					one(v)
+				}
+			} else if kind != kRaw {
+				for _, pos := range []int{0, cnt - 1} {
+					v := base(g.randSubset(cnt))
+					v.corrs = []corr{g.mkCorr("altcontent", pos, v.shares)}
+					one(v)
+				}
+			}
 		}
 		// field alterations spread over the object
 		for k := 0; k < g.capF; k++ {
@@ -1993,6 +2057,15 @@ func (g *gen) random() {
 			for j := 0; j < nc; j++ {
 				v.corrs = append(v.corrs, g.mkCorr(corrKinds[g.r.Intn(len(corrKinds))], g.r.Intn(len(shares)), shares))
 			}
+		}
+		if kind == kAtt && len(shares) > 0 && g.r.Chance(1, 3) {
+			p := g.r.Intn(len(shares))
+			v.corrs = append(v.corrs, corr{pos: p, kind: "validx"})
+			if g.r.Chance(1, 2) {
+				v.corrs = append(v.corrs, g.mkCorr("altcontent", p, shares))
+			}
+		} else if len(shares) > 0 && g.r.Chance(1, 8) {
+			v.corrs = append(v.corrs, g.mkCorr("altcontent", 0, shares))
 		}
 		if g.r.Chance(1, 25) {
 			v.keying = []string{"extra", "bad"}[g.r.Intn(2)]
